@@ -70,11 +70,11 @@ def OnceQ (shC : Int) (K : Int → Prop) (sub : Rebuild w) (σS' σE' : State w)
     (∀ v, M0c v = memS σE' σS' v) ∧
     (∀ v, mGet sub.written v = none → memE b v = memE σE' v)
 
-theorem child_once {shP shC cS : Int} {pc : List (Rebuild w)} {sub0 sub : Rebuild w}
-    {bodyS : List (Instr w)} (hc : ChildPre shP shC pc sub0 sub cS bodyS)
+theorem child_once {Gc : State w → Prop} {shP shC cS : Int} {pc : List (Rebuild w)} {sub0 sub : Rebuild w}
+    {bodyS : List (Instr w)} (hc : ChildPre Gc shP shC pc sub0 sub cS bodyS)
     (K : Int → Prop) (hK : ∀ v, K v → v ∉ sub.reads) {σS' σE' : State w}
     (htr : σS'.trace = σE'.trace) (henv : σS'.env = σE'.env) (hptr : σS'.ptr = σE'.ptr + shP)
-    (hag : ∀ v, ¬ K v → memS σE' σS' v = memE σE' v) (hne : σS'.rd cS ≠ 0#w) :
+    (hag : ∀ v, ¬ K v → memS σE' σS' v = memE σE' v) (hne : σS'.rd cS ≠ 0#w) (hg : Gc σS') :
     Sim (OnceQ shC K sub σS' σE') bodyS sub.insts σS' σE' ∧ ¬ Bad sub.insts σE' := by
   have hX : ∃ σX : State w, σX = σS'.mov (-shP) := ⟨_, rfl⟩
   obtain ⟨σX, hσX⟩ := hX
@@ -86,8 +86,8 @@ theorem child_once {shP shC cS : Int} {pc : List (Rebuild w)} {sub0 sub : Rebuil
     funext v
     show σS'.tape.get (σX.ptr + v) = σX.tape.get (σX.ptr + v)
     rw [hXtape]
-  obtain ⟨M0c, hre⟩ := hc.entry σX σS' hsm hne
-  obtain ⟨hs1, hnb1⟩ := hc.rep M0c σX σS' hre
+  obtain ⟨M0c, hre⟩ := hc.entry σX σS' hsm hne hg
+  obtain ⟨hs1, hnb1⟩ := hc.rep M0c σX σS' hre hg
   have hagX : AgreeOff (Rest K sub0) σX σE' := by
     refine ⟨hXptr, by rw [hσX]; exact henv, by rw [hσX]; exact htr, ?_⟩
     intro v hv
@@ -95,7 +95,7 @@ theorem child_once {shP shC cS : Int} {pc : List (Rebuild w)} {sub0 sub : Rebuil
     have := hag v hkv
     show σX.tape.get (σX.ptr + v) = _
     rw [hXtape, hXptr]; exact this
-  have hvX : Valid shP sub0 pc σX := ⟨M0c, σS', hre⟩
+  have hvX : ValidG Gc shP sub0 pc σX := ⟨M0c, σS', hre, hg⟩
   have hs2 := hc.foot hc.noShift K hK σX σE' hvX hagX
   refine ⟨?_, fun hb => hnb1 (hc.badfoot hc.noShift K hK σX σE' hvX hagX hb)⟩
   refine (Sim.trans hs1.fin_strengthen hs2.fin_strengthen).mono ?_
@@ -358,12 +358,14 @@ theorem takeInlineOrder_cover {P l : List (Int × Expr w)} {os os' : Orders} (hs
 /-- `inline` of a child that does not move the pointer (the block is executed exactly once). -/
 theorem inline_stay_ok {shP shC shS cS : Int} {bodyS : List (Instr w)}
     {s : Rebuild w} {ps : List (Rebuild w)} {sub : Rebuild w} {pc : List (Rebuild w)} {sub0 : Rebuild w}
-    {os os' : Orders} {s' : Rebuild w} {G : State w → Prop}
+    {os os' : Orders} {s' : Rebuild w} {G Gc : State w → Prop}
     (hr : (Opt.inline s ps sub).run os = .ok (s', os'))
-    (hwf : Wf s) (hpre : ChildPre shP shC pc sub0 sub cS bodyS) (hsf : ShiftFree s)
+    (hwf : Wf s) (hpre : ChildPre Gc shP shC pc sub0 sub cS bodyS) (hsf : ShiftFree s)
     (hkv : ∀ v e, mGet sub.written v = some (.known e) → ∀ x ∈ Expr.variables e, x ∈ sub.reads)
-    (hne : ∀ M0 σE σS, RelAt shP s ps M0 σE σS → G σS → σS.rd cS ≠ 0#w) :
+    (hne : ∀ M0 σE σS, RelAt shP s ps M0 σE σS → G σS → σS.rd cS ≠ 0#w)
+    (hGc : ∀ M0 σE σS, RelAt shP s ps M0 σE σS → G σS → Gc σS) :
     Wf s' ∧ s'.subShift = s.subShift ∧ s'.parent = s.parent ∧ s'.anal = s.anal ∧ s'.cond = s.cond ∧
+    (sub.noReturn = true → s'.noReturn = true) ∧ (sub.noReturn = false → s'.shift = sub.shift) ∧
     ∃ new, s'.insts = s.insts ++ new ∧
       ∀ M0 σE σS, RelAt shP s ps M0 σE σS → G σS →
         Sim (fun a b => StepQ (shC + shS) ps s' M0 σE (a.mov shS) b) bodyS new σS σE ∧ ¬ Bad new σE := by
@@ -450,7 +452,7 @@ theorem inline_stay_ok {shP shC shS cS : Int} {bodyS : List (Instr w)}
     have honce := child_once hpre
       (fun v => memS ((c1 ++ c2).foldl doCalc σE) σS v ≠ memE ((c1 ++ c2).foldl doCalc σE) v) hK
       (by rw [m3]; exact hrel.tr) (by rw [m2]; exact hrel.env) (by rw [m1]; exact hrel.ptr)
-      (fun v hv => Classical.not_not.1 hv) (hne M0 σE σS hrel hG)
+      (fun v hv => Classical.not_not.1 hv) (hne M0 σE σS hrel hG) (hGc M0 σE σS hrel hG)
     refine ⟨Sim.calcs_right (c1 ++ c2) (honce.1.mono ?_), ?_⟩
     · rintro a b ⟨y, M0c, hr', hab, pb, hM0c, hfb⟩
       refine ⟨y, M0c, hr', hab.1, hr'.tr.trans hab.2.2.1, hr'.env.trans hab.2.1, pb.trans m1, ?_⟩
@@ -472,6 +474,7 @@ theorem inline_stay_ok {shP shC shS cS : Int} {bodyS : List (Instr w)}
     rw [run_pure] at h4
     cases h4
     refine ⟨⟨hwf3.pend, hwf3.writ, hwf3.rev, hwf3.revOk⟩, hhdr3.2.2.2.2, hhdr3.1, hhdr3.2.1, hhdr3.2.2.2.1,
+      fun _ => rfl, fun h => absurd (hnr.symm.trans h) (by simp),
       (c1 ++ c2).map Instr.calc ++ sub.insts, ?_, ?_⟩
     · show (writtenCalcs _ ps (knownsOf sub)).insts = _
       rw [hinsts3, List.append_assoc]
@@ -492,6 +495,7 @@ theorem inline_stay_ok {shP shC shS cS : Int} {bodyS : List (Instr w)}
     obtain ⟨c3, s3', res3, hwf5, hsame5, hminv5⟩ := performAll_spec hwf3 h7
     have hhdr5 : SameHdr s s5 := hhdr3.trans (res3.hdr.trans hsame5.hdr)
     refine ⟨⟨hwf5.pend, hwf5.writ, hwf5.rev, hwf5.revOk⟩, hhdr5.2.2.2.2, hhdr5.1, hhdr5.2.1, hhdr5.2.2.2.1,
+      fun h => absurd h hnr, fun _ => rfl,
       ((c1 ++ c2).map Instr.calc ++ sub.insts) ++ c3.map Instr.calc, ?_, ?_⟩
     · show s5.insts = _
       rw [hsame5.2.2.2.2.2.2.2.2.1, res3.insts, hinsts3]
